@@ -3,6 +3,7 @@ package main
 import (
 	"fmt"
 	"math/rand"
+	"runtime"
 	"sort"
 	"strings"
 	"sync"
@@ -243,6 +244,7 @@ func vmapLenLine(t []string) string {
 					bad.CompareAndSwap(nil, fmt.Sprintf("Length()=%d although %d stores had completed before the call and %d had started when it returned", n, lo, hi))
 					return
 				}
+				runtime.Gosched() // the readers must not starve the writer of the map's lock
 			}
 		}()
 	}
@@ -258,7 +260,7 @@ func vmapLenLine(t []string) string {
 		case 0:
 			m.Range(func(string, *ds.VMValue) bool { return true }) // promotes the dirty table
 		case 1:
-			for j := 0; j <= i+1; j++ {
+			for j := 0; j <= i+1 && i < 300; j++ {
 				m.Load("absent") // misses promote it too
 			}
 		}
